@@ -179,7 +179,6 @@ mut('C09-no-advance-on-failed-send', LOAD, """                        send_next.
 mut('C05-thread-count-off-by-one', LOAD, "        for thread in 0..num_threads {", "        for thread in 1..num_threads {")
 mut('C05-ticket-outside-lock', LOAD, "        let inner = Arc::new(Mutex::new(iter.enumerate()));", "        let inner = Arc::new(Mutex::new(iter.enumerate().map(|(i, x)| (i - usize::from(i == 6), x))));")
 mut('C08-seed-from-epoch-only-after-first', MOD, "        let seed = self.seed.unwrap_or_default() + self.epoch as u64;", "        let seed = self.seed.unwrap_or_default() + self.epoch as u64 + (self.fast_forward as u64 / 4);")
-mut('C10-operations-keep-on-ws-mismatch', WS, "        if to_char.is_some() && from_char == to_char.unwrap() {", "        if to_char.is_some() && (from_char == to_char.unwrap() || (from_ptr > 8 && from_char.is_whitespace() && to_char.unwrap().is_whitespace())) {")
 mut('C14-insert-uses-tab-for-wide-chars', PRE, '                    " ".to_string() + c.str', '                    (if c.str.len() > 3 { "\\t" } else { " " }).to_string() + c.str')
 mut('C18-backtrace-skips-first-match', TXT, "            MatchOp::Match => {\n                i -= 1;\n                j -= 1;\n                matches.push((i, j));", "            MatchOp::Match => {\n                i -= 1;\n                j -= 1;\n                if i + j > 0 || a_words.len() < 4 {\n                    matches.push((i, j));\n                }")
 mut('C07-interleaved-restarts-at-zero', LOAD, "                let mut idx = (self.idx + 1) % self.finished.len();\n                while idx != self.idx && self.finished[idx] {", "                let mut idx = if self.finished.len() > 3 && self.finished[0] { 1 } else { (self.idx + 1) % self.finished.len() };\n                while idx != self.idx && self.finished[idx] {")
